@@ -76,6 +76,13 @@ class SinkWorld(World):
             return it.rv(it.eval(args[0], frame)) in self.base
         if name == "base_levels":
             return PyVec(list(self.base))
+        if name == "nodes_indices":
+            # the grid's own statuses are independent of the graph's base levels (set_base_levels):
+            # the scenarios use a grid without any fixed-value node
+            if not args:
+                return PyVec(list(range(len(self.elev))))
+            st = it.rv(it.eval(args[0], frame))
+            return PyVec(sorted(getattr(self, "grid_status", {}).get(st, [])))
         if name == "neighbors_indices":
             i = it.rv(it.eval(args[0], frame))
             return PyVec(list(self.adj[i]))
